@@ -17,5 +17,5 @@ package util
 //@   ensures [C18.merge.caller_context_kept] ctx1 != background() ==> result_0 == ctx1 || uf("ctxparent", result_0) == ctx1
 //@   ensures [C18.merge.background_passthrough] ctx1 == background() ==> result_0 == ctx2
 //@   ensures [C18.merge.cancel_func] result_1 != nil
-//@   havoc
-//@   modifies *
+//@   ensures [C18.merge.noop_cancel] (ctx1 == background() || ctx2 == background()) ==> result_1 == fnid("noop")
+//@   modifies nothing
